@@ -5,7 +5,8 @@ From Coq Require Import ZArith List Bool Lia.
 From EC Require Import Lib.Outcome Lib.U64 Lib.ListW Model.Msgs Model.Replica Model.ReplicaRun Model.Protocol
   Model.ProtocolSync Proofs.ProtocolRefinesExec Proofs.ProtocolRefinesExample
   Proofs.ProtocolLive Proofs.ProtocolLiveInv Proofs.ProtocolLiveExample Proofs.ProtocolLiveCatch
-  Proofs.ProtocolLiveNoStop Proofs.ProtocolLiveCommitStep Proofs.ProtocolLiveCommitLock Proofs.ProtocolLiveCommit.
+  Proofs.ProtocolLiveNoStop Proofs.ProtocolLiveCommitStep Proofs.ProtocolLiveCommitLock Proofs.ProtocolLiveCommit
+  Proofs.ProtocolLiveTimeoutStep Proofs.ProtocolLiveTimeoutLock Proofs.ProtocolLiveTimeout.
 Import ListNotations.
 Open Scope Z_scope.
 
@@ -321,6 +322,50 @@ Proof.
   rewrite Hh. unfold height. exact D.
 Qed.
 
+(* the timeout twin of (d): a waiting view without a verifying proposal on the network is
+   abandoned by every honest node in the same round, two rounds later; the honest leader of the
+   next view has then proposed for the justification (its own timeout certificate for V) its
+   proposer was notified of, and that is the only verifying proposal for view V+1; a Byzantine
+   leader of the next view has no verifying proposal for it on the network *)
+Definition no_proposal (P : params) (s : gstate) (V : Z) : Prop :=
+  forall m p' j' mv', In m (g_soup s) -> m_msg m = MProposal p' j' ->
+    justification_view (E := unit) true j' = Ok mv' -> vnum mv' = V ->
+    justification_verify (p_g P) (p_e P) (p_C P) j' = Ok tt -> False.
+
+Definition C06_view_times_out : Prop :=
+  forall P pay fetch, params_ok P -> env_ok P pay -> forall s V n, preach P s -> headroom P s 4 ->
+  0 < V -> waiting P s V n -> no_proposal P s V ->
+  forall k0, honestb P k0 = true ->      (* some validator is honest *)
+  let s2 := sync_rounds P pay fetch 2 s in
+  let L' := cleader (pcfg P 0) (V + 1) in
+  (forall k, honestb P k = true ->
+     up s2 k /\ hview s2 k = V + 1 /\ r_phase (n_live (g_node s2 k)) = Prepare /\ height s k <= height s2 k) /\
+  (honestb P L' = true ->
+     exists tq p, vnum (tqview tq) = V /\
+       justification_verify (p_g P) (p_e P) (p_C P) (JTimeout tq) = Ok tt /\
+       proposal_payload P pay (JTimeout tq) = Some p /\
+       In {| m_key := L'; m_sig_ok := true; m_msg := MProposal p (JTimeout tq) |} (g_soup s2) /\
+       (forall m p' j' mv', In m (g_soup s2) -> m_msg m = MProposal p' j' -> m_key m = L' -> m_sig_ok m = true ->
+          justification_view (E := unit) true j' = Ok mv' -> vnum mv' = V + 1 ->
+          justification_verify (p_g P) (p_e P) (p_C P) j' = Ok tt -> p' = p /\ j' = JTimeout tq)) /\
+  (honestb P L' = false -> no_proposal P s2 (V + 1)).
+
+Theorem view_times_out_holds : C06_view_times_out.
+Proof.
+  intros P pay fetch HP He s V n Hr (Hd & Hs) HV Hw Hnp k0 Hk0. cbv zeta.
+  assert (HdV : p_first P + V + 4 < U64).
+  { destruct (Hw k0 Hk0) as (Hu & Hv & _). specialize (Hd k0 Hk0).
+    rewrite (up_dview P HP s k0 Hr Hk0 Hu), Hv in Hd. exact Hd. }
+  assert (Hf : 0 <= p_first P) by apply He.
+  destruct (timeout_two_rounds_post P HP pay fetch He V n HV s Hr (U64 - 3) ltac:(lia) ltac:(lia) ltac:(lia)
+              (fun m Hm => ltac:(specialize (Hs m Hm); lia))
+              (fun k1 Hk1 => ltac:(destruct (Hw k1 Hk1) as (A & B & C & D); unfold height in D; repeat split; auto; lia))
+              Hnp) as (_ & _ & H3 & H4 & H5).
+  split; [|split; [exact H4|exact H5]].
+  intros k Hk. destruct (H3 k Hk) as (A & B & C & D). destruct (Hw k Hk) as (_ & _ & _ & Hh).
+  repeat split; auto. rewrite Hh. unfold height. exact D.
+Qed.
+
 (* a boolean test of [proposal_on_network]: exactly one proposal message on the network, and it
    is the leader's proposal of the environment's payload for the implied new block *)
 Definition is_prop (m : sgmsg) : bool := match m_msg m with MProposal _ _ => true | _ => false end.
@@ -395,6 +440,34 @@ Proof. intros i Hi. assert (i = 1%nat) by lia. subst i. vm_compute. reflexivity.
 
 Lemma ex_headroom_s1 : headroom ex_P ex_s1 (Z.of_nat 2 + 2).
 Proof. exact (proj1 (proj2 ex_view_commits_hyps)). Qed.
+
+(* the hypotheses of the timeout twin hold after the first round from the initial state of the
+   six-validator committee whose view-1 leader (validator 2) is Byzantine and silent *)
+Definition ex_s6 : gstate := sync_rounds ex_P6 ex_pay (find_cert ex_P6) 1 (ginit ex_P6).
+
+Lemma no_proposal_by_filter P s V : filter is_prop (g_soup s) = [] -> no_proposal P s V.
+Proof.
+  intros Hb m p' j' mv' Hin Em _ _ _.
+  assert (Hp : is_prop m = true) by (unfold is_prop; rewrite Em; reflexivity).
+  pose proof (proj2 (filter_In is_prop m (g_soup s)) (conj Hin Hp)) as Hm. rewrite Hb in Hm. destruct Hm.
+Qed.
+
+Lemma ex_view_times_out_hyps :
+  preach ex_P6 ex_s6 /\ headroom ex_P6 ex_s6 4 /\ waiting ex_P6 ex_s6 1 0 /\ no_proposal ex_P6 ex_s6 1 /\
+  honestb ex_P6 (cleader (pcfg ex_P6 0) 1) = false /\ honestb ex_P6 1 = true.
+Proof.
+  split; [apply sync_rounds_reach, PReachInit|]. split; [|split; [|split; [|split]]].
+  - split.
+    + intros k Hk. apply ex_P6_hon in Hk. repeat (destruct Hk as [<-|Hk]; [vm_compute; reflexivity|]). destruct Hk.
+    + intros m Hin.
+      assert (Hb : forallb (fun m => msg_view (m_msg m) + 4 <? U64) (g_soup ex_s6) = true) by (vm_compute; reflexivity).
+      apply Z.ltb_lt. exact (Forall_forallb _ _ Hb m Hin).
+  - intros k Hk. apply ex_P6_hon in Hk.
+    repeat (destruct Hk as [<-|Hk]; [vm_compute; repeat split; reflexivity|]). destruct Hk.
+  - apply no_proposal_by_filter. vm_compute. reflexivity.
+  - vm_compute. reflexivity.
+  - vm_compute. reflexivity.
+Qed.
 
 (* ================================================================== *)
 (* the corrected (d) with "the leader is ready" is still false for three rounds: if the leader
